@@ -473,8 +473,8 @@ class C15(Check):
         integer = rng.random() < 0.1
         if integer:
             x = np.round(x / np.abs(x).max() * 1000)
-        if (x.max(0) == x.min(0)).any():
-            x[0] += np.arange(1, m + 1)
+        const = x.max(0) == x.min(0)          # correlation / standardisation undefined for a constant column
+        x[0, const] += 1.0 if integer else x[0, const] * 0.5 + 1.0
         order = ['coefficients', 'derived', 'variance', 'eigenvalues']
         rng.shuffle(order)
         return {'kind': 'pcomp', 'x': _lists(x), 'covariance': covariance, 'standardize': standardize,
